@@ -43,7 +43,9 @@ Positions(b) ==
             (IF nw + sz > 0 THEN {nw + sz} ELSE {}) \cup {16843009, Base}
 Lists(l) == {<<Blk(Base, l)>>, <<Blk(Base, l), Blk(127 * Pow2(24), 8)>>,
              <<Blk(Base, IF l + 4 <= 32 THEN l + 4 ELSE 32), Blk(Base, l)>>}
-Sites == {"library", "checkauth", "refresh", "readback"}
+\* checkauth_pw: the same endpoint on a server whose operator also admits passwords (and so keymaster user
+\* certificates) for certificates - the role certificate must still only work through the IP-restricted path
+Sites == {"library", "checkauth", "checkauth_pw", "refresh", "readback"}
 Peer(f, a) == [fam |-> f, addr |-> a]
 InC11(p) == \/ \E l \in 0..32, s \in Sites : \E bl \in Lists(l) :
                  \E a \in Positions(Blk(Base, l)), f \in {"v4", "v4mapped"} :
